@@ -134,6 +134,8 @@ type Sim struct {
 	hbSeq uint32
 	armed []KRepItem
 	armedAns *Action
+	armedStop int
+	closeDone, waitDone chan struct{}
 	tearing bool
 	c11carriers map[string]bool
 	statesSeen map[string]bool
@@ -358,6 +360,15 @@ func (s *Sim) settle() {
 			if err := s.kern.decode(r); err != nil {
 				s.harnessFail("simkernel cannot decode a request from go-upf: %v (% x)", err, r.Raw)
 			}
+			if s.armedStop > 0 && r.Conn == "main" {
+				s.armedStop--
+				if s.armedStop == 0 {
+					// the shutdown goroutine of pkg/app runs Stop() then Close() without
+					// waiting for the event loop: here it does so while the loop is waiting
+					// for the data plane's answer to this very request
+					s.stopMidTurn()
+				}
+			}
 			if s.armedAns != nil && r.Conn == "main" {
 				s.armedAns.N--
 				if s.armedAns.N <= 0 {
@@ -567,8 +578,19 @@ func (s *Sim) stop1() {
 	if pending > 0 {
 		s.probe("stop.with.pending", 1)
 	}
-	s.srv.Stop()
+	// Stop() may wait for the event loop to finish its turn: run it like the shutdown
+	// goroutine of pkg/app does, and keep the data plane answering meanwhile
+	done := make(chan struct{})
+	go func() {
+		s.srv.Stop()
+		close(done)
+	}()
 	s.settle()
+	select {
+	case <-done:
+	default:
+		s.shutdownStuck("PfcpServer.Stop() does not return")
+	}
 }
 
 func (s *Sim) stop2() {
@@ -599,6 +621,44 @@ func (s *Sim) stop2() {
 	case <-wdone:
 	default:
 		s.shutdownStuck("goroutines still running after Stop and Close")
+	}
+}
+
+// stopMidTurn: Stop() and Close() issued while the event loop is inside a turn.
+func (s *Sim) stopMidTurn() {
+	if s.stopped1 || s.stopped2 {
+		return
+	}
+	s.stopped1, s.stopped2 = true, true
+	s.logEvent("stop (mid-turn)")
+	s.probe("stop.midturn", 1)
+	s.closeDone = make(chan struct{})
+	s.waitDone = make(chan struct{})
+	go func() {
+		s.srv.Stop()
+		s.drv.Close()
+		close(s.closeDone)
+		s.wg.Wait()
+		close(s.waitDone)
+	}()
+}
+
+// checkMidTurnStop: after the run, everything must have terminated.
+func (s *Sim) checkMidTurnStop() {
+	if s.closeDone == nil {
+		return
+	}
+	s.settle()
+	select {
+	case <-s.closeDone:
+	default:
+		s.shutdownStuck("Driver.Close() does not return (Stop and Close were issued while the event loop was waiting for a data-plane answer)")
+		return
+	}
+	select {
+	case <-s.waitDone:
+	default:
+		s.shutdownStuck("goroutines still running after Stop and Close issued while the event loop was waiting for a data-plane answer")
 	}
 }
 
@@ -791,10 +851,10 @@ func (s *Sim) teardown() {
 	s.pendRep = nil
 	s.rmu.Unlock()
 	if !s.stopped1 {
-		s.stopped1 = true
-		s.srv.Stop()
+		s.stop1()
 	}
 	if !s.stopped2 {
 		s.stop2()
 	}
+	s.checkMidTurnStop()
 }
